@@ -15,10 +15,10 @@ func init() {
 	Register(&Prop{
 		Meta: core.Meta{
 			ID: "C32", Title: "The IS-IS LSDB follows the ISO 10589 update process", Level: "other",
-			Technique:  "guard extraction (R-GATE) and decision tables on the typed AST/go/cfg of the LSDB: what every database store, every flag operation, the aging step and the own sequence counter are control-dependent on",
-			DesignRef:  "DESIGN.md §4 C32",
-			Decided:    "(1) a received LSP replaces the stored one only when there is none or its sequence number is higher; equal and lower numbers never store; (2) the flag operations of the four cases of an LSP/SNP entry against the database (newer received, same, older received / entry newer, same, older, unknown) are the ISO 10589 §7.3.15–17 ones (table in the checker), for CSNP and PSNP entries alike, and the 'not described by the CSNP' rule applies only inside the CSNP's range; (3) aging removes an entry whose remaining lifetime is at most 1 and only decrements larger ones (no wrap below zero), and asks for a refresh of the own LSP below the refresh threshold; (4) the own sequence number increases with every originated LSP, skips 0, and is raised to a received copy's number before the next origination.",
-			NotDecided: "timing of the periodic routines, checksum handling, purging (zero-lifetime LSP propagation), pseudonode LSPs; that flooding eventually reaches every neighbor is a liveness property.",
+			Technique:   "guard extraction (R-GATE) and decision tables on the typed AST/go/cfg of the LSDB: what every database store, every flag operation, the aging step and the own sequence counter are control-dependent on",
+			DesignRef:   "DESIGN.md §4 C32",
+			Decided:     "(1) a received LSP replaces the stored one only when there is none or its sequence number is higher; equal and lower numbers never store; (2) the flag operations of the four cases of an LSP/SNP entry against the database (newer received, same, older received / entry newer, same, older, unknown) are the ISO 10589 §7.3.15–17 ones (table in the checker), for CSNP and PSNP entries alike, and the 'not described by the CSNP' rule applies only inside the CSNP's range; (3) aging removes an entry whose remaining lifetime is at most 1 and only decrements larger ones (no wrap below zero), and asks for a refresh of the own LSP below the refresh threshold; (4) the own sequence number increases with every originated LSP, skips 0, and is raised to a received copy's number before the next origination.",
+			NotDecided:  "timing of the periodic routines, checksum handling, purging (zero-lifetime LSP propagation), pseudonode LSPs; that flooding eventually reaches every neighbor is a liveness property.",
 			TrustedBase: stdTrusted,
 		},
 		Run: runC32,
